@@ -177,7 +177,7 @@ def gen_cases(ctx, tier):
         for _f in range(nf):
             p = []
             for _ in range(rng.randint(1, 6)):
-                opc = rng.choice([1, 1, 2, 3, 2, 3, 4, 5, 6, 7, 8, 9, 9, 9, 10, 10, 11, 12, 13, 13, 14, 14])
+                opc = rng.choice([1, 1, 2, 3, 2, 3, 4, 5, 6, 7, 8, 9, 9, 9, 10, 10, 11, 12, 13, 13, 14, 14, 15, 15, 16, 17, 17])
                 p.append((opc, rng.randint(0, 1)))
             progs.append(p)
         length = rng.randint(50, 2500)
